@@ -173,7 +173,7 @@ def _shapes(tier, prop=None):
                 dict(graph="chain3", rounds=2, subsets="random", policy="explore", sched_seed=1), dict(graph="chain3", rounds=3, policy="fifo"),
                 dict(graph="chain3", rounds=2, subsets="all", policy="explore", start_order="explore"),
                 dict(graph="chain3", rounds=2, subsets="none", policy="explore"),
-                dict(graph="triangle", rounds=2, subsets="all", policy="explore")] \
+                dict(graph="triangle", rounds=1, subsets="all", policy="explore")] \
         + [dict(graph=g, rounds=4, subsets="random", policy="random", sched_seed=i, interleave_start=bool(i % 2), between=i % 4, start_order=("rev" if i % 2 else "fwd"))
            for g in ("star4", "triangle", "chain3") for i in range(10, 40)]
 
